@@ -11,6 +11,7 @@
 -/
 import RxModel.Spec.OpLang
 import RxModel.Model.Api
+import RxModel.Proofs.InvLemmas
 namespace Rx.C02
 open Rx
 
@@ -32,26 +33,112 @@ def capsPosL : List Op → Bool
 termination_by structural l => l
 end
 
-/-- the start of group 0 recorded by `match_at` is never overwritten by the engine -/
-theorem sem_keeps_start0 (ctx : Ctx) (op : Op) (hc : capsPos op = true) (j p : Nat) (st : St)
-    (h : getO st.cap.startn 0 = some j) :
-    (sem ctx op p st).Inv (fun st' => getO st'.cap.startn 0 = some j) := by
-  sorry
+mutual
+theorem capsPos_eq : (op : Op) → capsPos op = capsPosOp op
+  | .bol | .eol | .nothing | .endProgram => by simp only [capsPos, capsPosOp]
+  | .atom _ | .cls _ | .backref _ => by simp only [capsPos, capsPosOp]
+  | .capture g c => by simp only [capsPos, capsPosOp, capsPos_eq c]
+  | .choice bs => by simp only [capsPos, capsPosOp, capsPosL_eq bs]
+  | .seq ops => by simp only [capsPos, capsPosOp, capsPosL_eq ops]
+  | .rep _ c _ _ _ => by simp only [capsPos, capsPosOp, capsPos_eq c]
+  | .gfixed c _ _ _ => by simp only [capsPos, capsPosOp, capsPos_eq c]
+  | .rfixed c _ _ _ => by simp only [capsPos, capsPosOp, capsPos_eq c]
+  | .unamb c _ _ => by simp only [capsPos, capsPosOp, capsPos_eq c]
+termination_by structural op => op
+theorem capsPosL_eq : (ops : List Op) → capsPosL ops = capsPosOps ops
+  | [] => by simp only [capsPosL, capsPosOps]
+  | o :: os => by simp only [capsPosL, capsPosOps, capsPos_eq o, capsPosL_eq os]
+termination_by structural ops => ops
+end
+
+/-- ORIGINAL STATEMENT, FALSE AS STATED (kept visible; refuted by `sem_keeps_start0_false`):
+    the start of group 0 recorded by `match_at` is never overwritten by the engine.
+    It fails for trees that are not well-formed: a body whose iterator does not terminate makes
+    `first1` hand on the made-up state `({} : St).setPanic panicDiverge`, whose capture arrays are
+    empty, and `UnambiguousRepeat` yields that state.  True for well-formed trees started inside
+    the input: `sem_keeps_start0_partial`. -/
+def sem_keeps_start0 : Prop :=
+  ∀ (ctx : Ctx) (op : Op), capsPos op = true → ∀ (j p : Nat) (st : St),
+    getO st.cap.startn 0 = some j →
+    (sem ctx op p st).Inv (fun st' => getO st'.cap.startn 0 = some j)
+
+section counterexample
+private def cexCtx : Ctx :=
+  { input := [], caseBlind := false, multiLine := false, hasBackrefs := false, maxParens := 1,
+    lower := fun c => c }
+/-- the body `(?:){0,∞}?` with recorded length 0 (not well-formed) followed by an empty class:
+    its iterator backtracks for ever -/
+private def cexOp : Op := .unamb (.seq [.rfixed .nothing 0 usizeMax 0, .cls []]) 0 1
+private def cexSt : St := { cap := { startn := [some 0] } }
+
+example : capsPos cexOp = true := by decide
+example : wfOp cexOp = false := by decide
+
+/-- the original `sem_keeps_start0` is false -/
+theorem sem_keeps_start0_false : ¬ sem_keeps_start0 := by
+  intro h
+  have h1 := h cexCtx cexOp (by decide) 0 0 cexSt rfl
+  have h2 : sem cexCtx cexOp 0 cexSt = .cons 0 (({} : St).setPanic panicDiverge) .nil := rfl
+  rw [h2] at h1
+  have h3 := h1.head
+  simp [St.setPanic, getO] at h3
+
+/-- the variant with the invariant weakened to "… or the divergence marker is set" is false too:
+    the sequence iterator restores the capture state it saved on entry (here: the made-up one)
+    into whatever state its consumer hands back (here: one without the marker) -/
+def sem_keeps_start0_disj : Prop :=
+  ∀ (ctx : Ctx) (op : Op), capsPos op = true → ∀ (j p : Nat) (st : St),
+    getO st.cap.startn 0 = some j →
+    (sem ctx op p st).Inv (fun st' => getO st'.cap.startn 0 = some j ∨ st'.panic = some panicDiverge)
+
+private def cexOp2 : Op := .seq [.choice [cexOp, .nothing], .seq [.capture 1 .nothing, .nothing]]
+private def tl (s : Step) (st : St) : Step := match s with | .cons _ _ r => r st | _ => .diverge
+private def hdSt (s : Step) : Option St := match s with | .cons _ st _ => some st | _ => none
+
+private theorem inv_tl {I : St → Prop} {s : Step} (h : s.Inv I) (st : St) (hst : I st) : (tl s st).Inv I := by
+  cases h with
+  | nil _ _ => exact .diverge
+  | cons _ _ _ _ hr => exact hr st hst
+  | diverge => exact .diverge
+
+private theorem inv_hdSt {I : St → Prop} {s : Step} (h : s.Inv I) (st : St) (hs : hdSt s = some st) : I st := by
+  cases h with
+  | nil _ _ => cases hs
+  | cons _ _ _ h0 _ => cases hs; exact h0
+  | diverge => cases hs
+
+example : capsPos cexOp2 = true := by decide
+
+theorem sem_keeps_start0_disj_false : ¬ sem_keeps_start0_disj := by
+  intro h
+  have h1 := h cexCtx cexOp2 (by decide) 0 0 cexSt rfl
+  have h2 := inv_tl h1 cexSt (.inl rfl)
+  have h3 := inv_hdSt h2
+    { cap := { parenCount := 2, startn := [none, some 0], endn := [none, some 0] } } rfl
+  simp [getO] at h3
+end counterexample
+
+/-- the start of group 0 recorded by `match_at` is never overwritten by the engine
+    (well-formed trees, start position inside the input) -/
+theorem sem_keeps_start0_partial (ctx : Ctx) (op : Op) (hwf : wfOp op = true) (hc : capsPos op = true)
+    (j p : Nat) (hp : p ≤ ctx.len) (st : St) (h : getO st.cap.startn 0 = some j) :
+    (sem ctx op p st).Inv (fun st' => getO st'.cap.startn 0 = some j) :=
+  sem_s0 ctx j op hwf (by rw [← capsPos_eq]; exact hc) p st hp h
 
 /-- a successful `match_at(j)`: group 0 spans `[j, n)` where `n` is the first result of the
     iterator, `j ≤ n ≤ len`, and `[j, n)` is in the language of the program -/
 theorem matchAt_span (ctx : Ctx) (op : Op) (hwf : wfOp op = true) (hc : capsPos op = true)
     (j : Nat) (hj : j ≤ ctx.len) (st st' : St) (h : matchAt ctx op j st = (true, st')) :
     getParenStart st' 0 = some j ∧
-    ∃ n, getParenEnd st' 0 = some n ∧ j ≤ n ∧ n ≤ ctx.len ∧ OpR ctx op j n := by
-  sorry
+    ∃ n, getParenEnd st' 0 = some n ∧ j ≤ n ∧ n ≤ ctx.len ∧ OpR ctx op j n :=
+  matchAt_span_aux ctx op hwf (by rw [← capsPos_eq]; exact hc) j hj st st' h
 
 /-- `tryCands` returns the first candidate at which `match_at` succeeds -/
 theorem tryCands_first (ctx : Ctx) (op : Op) (cands : List Nat) (st st' : St)
     (h : tryCands ctx op cands st = (true, st')) :
     ∃ pre j post stj, cands = pre ++ j :: post ∧ matchAt ctx op j stj = (true, st') ∧
-      (tryCands ctx op pre st = (false, stj)) := by
-  sorry
+      (tryCands ctx op pre st = (false, stj)) :=
+  tryCands_first_aux ctx op cands st st' h
 
 /-- a successful `matches(i)` (all shortcuts included) reports a span at or after `i`, inside the
     input, that is a member of the language of the program -/
@@ -61,7 +148,9 @@ theorem matchesFrom_span (pr : Prog) (lower : Nat → Nat) (input : List Nat)
     (h : matchesFrom (pr.ctx lower input) pr i st = (true, st')) :
     ∃ a b, getParenStart st' 0 = some a ∧ getParenEnd st' 0 = some b ∧
       i ≤ a ∧ a ≤ b ∧ b ≤ input.length ∧ OpR (pr.ctx lower input) pr.op a b := by
-  sorry
+  obtain ⟨j, stj, hij, hjl, hm⟩ := matchesFrom_cand (pr.ctx lower input) pr i st st' hi h
+  obtain ⟨hs, n, he, hjn, hnl, hopr⟩ := matchAt_span (pr.ctx lower input) pr.op hwf hc j hjl stj st' hm
+  exact ⟨j, n, hs, he, hij, hjn, hnl, hopr⟩
 
 /-- with every shortcut off, the reported start is the leftmost position from which the
     program's iterator yields anything (positions are tried in increasing order) -/
@@ -69,6 +158,8 @@ theorem matchesNaive_leftmost (ctx : Ctx) (op : Op) (i : Nat) (st st' : St)
     (h : matchesNaive ctx op i st = (true, st')) :
     ∃ a sta, i ≤ a ∧ a ≤ ctx.len ∧ matchAt ctx op a sta = (true, st') ∧
       tryCands ctx op (rangeFrom i a) { st with cap := {} } = (false, sta) := by
-  sorry
+  obtain ⟨a, sta, h1, h2, h3, h4⟩ :=
+    tryCands_range_leftmost ctx op (ctx.len + 1) _ i _ st' rfl h
+  exact ⟨a, sta, h1, by omega, h3, h4⟩
 
 end Rx.C02
